@@ -160,6 +160,17 @@ def check(ctx):
                                                       "expected_uris_after_connect": expect, "reported_uris": got, "status": t["status"],
                                                       "implementation": impl[i][-2500:]})
         elif t["kind"] == "bytes" and 200 <= t["status"] <= 299:
+            # closing an established tunnel must not complete the CONNECT transaction's request side behind the caller's back
+            ops_c = c.split("\t")[3].split(",")
+            res_c = sconnp.split_ops(impl[i])
+            tunnelled = any(len(sconnp.parse_op(x)[1]) >= 4 and sconnp.parse_op(x)[1][2] == 4 for x in res_c)
+            if tunnelled and ops_c and ops_c[-1] == "C" and len(res_c) == len(ops_c):
+                evs = sconnp.parse_op(res_c[-1])[0]
+                if any(e.startswith("h9.0") or e.startswith("h18.0") for e in evs.split(" ")):
+                    nbad += 1
+                    if nbad <= 2:
+                        vf.violation(ctx, "tunnel-close-%d" % i, {"kind": "closing-an-established-tunnel-runs-completion-callbacks", "suite": "S-connp", "case": c,
+                                                                 "close_events": evs[:300], "implementation": impl[i][-2000:]})
             if len(dumps) != 1:
                 nbad += 1
                 if nbad <= 2:
